@@ -1342,6 +1342,16 @@ class EBPFBase:
     def ebpf(self):
         return self
 
+    def _maps(self):
+        """the maps declared in this class or one of its base classes"""
+        seen = set()
+        for cls in self.__class__.__mro__:
+            for k, v in cls.__dict__.items():
+                if k not in seen:
+                    seen.add(k)
+                    if isinstance(v, Map):
+                        yield k, v
+
 
 class SimulatedEBPF(EBPFBase):
     loaded = True
@@ -1406,12 +1416,11 @@ class EBPF(EBPFBase):
 
         super().__init__(**kwargs)
 
-        for k, v in self.__class__.__dict__.items():
-            if isinstance(v, Map):
-                if load_maps is None:
-                    v.init(self, None)
-                else:
-                    v.init(self, bpf.obj_get(load_maps + k))
+        for k, v in self._maps():
+            if load_maps is None:
+                v.init(self, None)
+            else:
+                v.init(self, bpf.obj_get(load_maps + k))
 
     def pin_maps(self, path):
         """pin the maps of this program to files with prefix `path`
@@ -1420,9 +1429,8 @@ class EBPF(EBPFBase):
         directories must already exist, while the individual files
         must not exist.
         """
-        for k, v in self.__class__.__dict__.items():
-            if isinstance(v, Map):
-                bpf.obj_pin(path + k, getattr(self, v.name).fd)
+        for k, v in self._maps():
+            bpf.obj_pin(path + k, getattr(self, v.name).fd)
 
     def program(self):
         """overwrite this method with your program while subclassing"""
@@ -1458,9 +1466,8 @@ class EBPF(EBPFBase):
         self.loaded = True
         self.file_descriptor = fd
 
-        for v in self.__class__.__dict__.values():
-            if isinstance(v, Map):
-                v.load(self)
+        for _, v in self._maps():
+            v.load(self)
 
         return log
 
